@@ -48,8 +48,7 @@ fn vec_with_capacity_checked_t<T>(remaining: Ghost<nat>, cap: usize) -> (r: Vec<
 
 //@ extract core/src/core/pmmr/segment.rs :: fn read_segment_positions
 //@   rewrite `Vec::with_capacity(` => `vec_with_capacity_checked(Ghost(reader.remaining()), `
-//@   rewrite `for _ in 0..count {` => `for i in 0..count`
-//@   rewrite `\t\tlet pos = reader.read_u64()?;` => `\t{\n\t\tlet pos = reader.read_u64()?;`
+//@   rewrite `for _ in 0..count {` => `for i in 0..count {`
 //@   requires:
 //@+    count <= 1_000_000,
 //@   ensures:
@@ -64,8 +63,7 @@ fn vec_with_capacity_checked_t<T>(remaining: Ghost<nat>, cap: usize) -> (r: Vec<
 
 //@ extract core/src/core/pmmr/segment.rs :: fn read_segment_items
 //@   rewrite `Vec::with_capacity(` => `vec_with_capacity_checked_t(Ghost(reader.remaining()), `
-//@   rewrite `for _ in 0..count {` => `for i in 0..count`
-//@   rewrite `\t\titems.push(T::read(reader)?);` => `\t{\n\t\titems.push(T::read(reader)?);`
+//@   rewrite `for _ in 0..count {` => `for i in 0..count {`
 //@   requires:
 //@+    count <= 1_000_000,
 //@   ensures:
